@@ -754,7 +754,7 @@ func c05leaf(p *Program, r *Report, env *lockEnv, rule string) {
 			}
 		}
 		// blocking channel operations / selects while holding a leaf mutex
-		for _, b := range fn.Blocks {
+		for _, b := range p.blocksOf(fn) {
 			for _, in := range b.Instrs {
 				blocking := false
 				switch x := in.(type) {
